@@ -160,7 +160,7 @@ def exact_sqrt(fr):
     return Fraction(a, b)
 
 # ---------------------------------------------------------------- parsing of driver output
-KW = {"ON", "OFF", "P", "I", "V", "CM", "END", "NLR", "LRM", "OCM", "FC", "GC", "NC", "RP", "RI", "SP", "SI", "SX"}
+KW = {"ON", "OFF", "P", "I", "V", "CM", "END", "NLR", "LRM", "OCM", "FC", "GC", "NC", "RP", "RI", "SP", "SI", "SX", "PT", "FCS"}
 
 def split_ranks(toks):
     out = []; cur = None
@@ -203,6 +203,13 @@ def parse_view(toks):
     for key in ("FC", "GC", "NC"):
         if ts.more() and ts.t[ts.i] == key:
             ts.next(); v[key] = int(ts.next())
+    for key in ("PT", "FCS"):
+        if ts.more() and ts.t[ts.i] == key:
+            ts.next(); v[key] = [int(x) for x in ts.until()]
+    for part in ("on", "off"):
+        for r in v[part]:
+            for (_, val) in r:
+                if isinstance(val, str): raise ValueError("non-finite matrix value " + val)
     return v
 
 def parse_pkg(toks):
@@ -217,6 +224,15 @@ def res_get(res, key):
     return None
 
 def vec_ranks(toks): return [[nums.parse_num(x) for x in r] for r in split_ranks(toks)]
+
+def nonfinite(res, keys):
+    for key in keys:
+        t = res_get(res, key)
+        if t is None: return key + " missing"
+        for r in vec_ranks(t):
+            for u in r:
+                if isinstance(u, str): return "%s contains %s" % (key, u)
+    return ""
 
 def view_eq(a, b, tol=True):
     """views equal: scalars, pointer structure, indices exactly; values by tolerance"""
@@ -270,6 +286,10 @@ def judge(ctx, c, impl, model):
         inew = [parse_view(t) for t in split_ranks(res_get(ri, "NEW"))]
     except Exception as e:
         ctx.signal("O", sig + ":malformed", "implementation output malformed (inconsistent arrays): %s" % e, case=c["line"]); return
+    keys = ["MULT"] if kind == "repart" else (["B", "S", "U"] if kind == "dscale" else ["B"])
+    w = nonfinite(ri, keys)
+    if w:
+        ctx.signal("O", sig + ":nonfinite", "implementation output not finite / missing: " + w, case=c["line"]); return
     # input representation: the views the model is run on are the ones the library built
     for q in range(P):
         w = view_eq(iv[q], c["views"][q])
@@ -289,7 +309,7 @@ def judge(ctx, c, impl, model):
     for q in range(P):
         w = view_eq(inew[q], mnew[q])
         if not w:
-            for key in ("NLR", "LRM", "OCM", "FC", "GC", "NC"):
+            for key in ("NLR", "LRM", "OCM", "FC", "GC", "NC", "PT", "FCS"):
                 if inew[q].get(key) != mnew[q].get(key): w = "%s: %s vs %s" % (key, inew[q].get(key), mnew[q].get(key)); break
         if w:
             ctx.signal("K", sig + ":view", "rank %d: implementation vs model: %s" % (q, w), case=c["line"],
@@ -322,6 +342,12 @@ def oracle_repart(ctx, c, sig, A, ri, inew):
             return bad("blocks", "rank %d: first/local/global sizes %s/%s/%s inconsistent with new_local_rows" % (q, v["first"], v["n"], v["gn"]))
         if v["LRM"] != [v["first"] + i for i in range(v["n"])] or v["OCM"] != v["LRM"]:
             return bad("maps", "rank %d: local_row_map / on_proc_column_map not the contiguous new numbering" % q)
+        f_, n_ = v["first"], v["n"]
+        nnz_ = sum(len(r) for r in v["on"]) + sum(len(r) for r in v["off"])
+        if v.get("PT") != [f_, f_ + n_ - 1, f_, f_ + n_ - 1, n_, n_, n, n, len(v["cm"]), nnz_] or \
+           v.get("FCS") != [sum(len(w["NLR"]) for w in inew[:r]) for r in range(P)] + [n] or v.get("FC") != f_ or v.get("NC") != n_:
+            return bad("partition", "rank %d: Partition object of the new matrix inconsistent with its blocks: PT=%s FCS=%s (first=%d, local=%d, global=%d)"
+                       % (q, v.get("PT"), v.get("FCS"), f_, n_, n))
         if any(k < 0 or k >= len(v["cm"]) for r in v["off"] for (k, _) in r) or any(k < 0 or k >= v["n"] for r in v["on"] for (k, _) in r) \
            or any(g < 0 or g >= n for g in v["cm"]):
             return bad("range", "rank %d: column index out of range" % q)
@@ -415,7 +441,8 @@ def run(ctx):
     impl = {}
     for P in sorted(set(c["P"] for c in cases)):
         lines = [c["line"] for c in cases if c["P"] == P]
-        out, crashed = fw.run_impl_lines(ctx, "drv_repart", lines, nprocs=P, name="c20p%d" % P)
+        out, crashed = fw.run_impl_lines(ctx, "drv_repart", lines, nprocs=P, name="c20p%d" % P,
+                                         timeout=ctx.scale(300, 900), max_restarts=4)
         impl.update(out)
     rcm, model, _, errm = fw.run_model(ctx, cf)
     if rcm != 0: ctx.signal("K", "modeldriver", "model driver exited with %s: %s" % (rcm, errm[-400:]))
